@@ -520,6 +520,40 @@ bool parse_name(std::string const& n, int naming, std::string& suffix, uint32_t&
   return parts.size() == 1;
 }
 
+// the instants in `year` at which the UTC offset of the process zone changes (exact second of the change)
+static std::vector<int64_t> dst_transitions(int64_t year)
+{
+  std::vector<int64_t> out;
+  tm b{};
+  b.tm_year = static_cast<int>(year - 1900);
+  b.tm_mday = 1;
+  int64_t t0 = static_cast<int64_t>(timegm(&b));
+  auto off = [](int64_t t)
+  {
+    time_t tt = static_cast<time_t>(t);
+    tm l;
+    localtime_r(&tt, &l);
+    return static_cast<int64_t>(l.tm_gmtoff);
+  };
+  int64_t prev = off(t0);
+  for (int64_t t = t0 + 21600; t < t0 + 366 * 86400; t += 21600)
+  {
+    int64_t cur = off(t);
+    if (cur != prev)
+    {
+      int64_t lo = t - 21600, hi = t; // off(lo) == prev, off(hi) == cur
+      while (hi - lo > 1)
+      {
+        int64_t mid = lo + (hi - lo) / 2;
+        (off(mid) == prev ? lo : hi) = mid;
+      }
+      out.push_back(hi);
+      prev = cur;
+    }
+  }
+  return out;
+}
+
 Case gen_rot(uint64_t seed, int tier, bool time_rotation)
 {
   Rng r(seed);
@@ -612,6 +646,29 @@ Case gen_rot(uint64_t seed, int tier, bool time_rotation)
     char hm[8];
     snprintf(hm, sizeof(hm), "%02d:%02d", static_cast<int>(r.pick<int64_t>({0, 0, 3, 12, 23, r.range(0, 23)})),
              static_cast<int>(r.pick<int64_t>({0, 0, 30, 59, r.range(0, 59)})));
+    if (!gmt && r.chance(1, 3))
+    {
+      // start a few hours to three days before a change of the zone's UTC offset; for daily rotation the configured time
+      // often lies in or next to the hour that is skipped or repeated
+      set_tz(c.tz);
+      std::vector<int64_t> tr = dst_transitions(year);
+      if (!tr.empty())
+      {
+        int64_t const T = tr[r.below(static_cast<uint32_t>(tr.size()))];
+        start = T - r.range(3600, 3 * 86400);
+        c.cfg["start"] = start;
+        c.cfg["near_offset_change"] = 1;
+        ts = start * 1000000000ll + r.range(0, 999999999);
+        if (freq == 1 && r.chance(2, 3))
+        {
+          time_t before = static_cast<time_t>(T - 1);
+          tm l;
+          localtime_r(&before, &l);
+          snprintf(hm, sizeof(hm), "%02d:%02d", static_cast<int>((l.tm_hour + r.pick<int64_t>({0, 1, 1})) % 24),
+                   static_cast<int>(r.pick<int64_t>({0, 1, 30, 59})));
+        }
+      }
+    }
     c.pattern = hm;
     c.cfg["limit"] = r.chance(1, 3) ? limit : 0;
     c.cfg["overwrite"] = 1;
